@@ -53,6 +53,7 @@ var structOfFieldTypes = []reflect.Type{
 	reflect.TypeOf(0), reflect.TypeOf(""), reflect.TypeOf(1.5), reflect.TypeOf(true), reflect.TypeOf([]int(nil)), reflect.TypeOf([]string(nil)),
 	reflect.TypeOf(za.Inner{}), reflect.TypeOf(zb.Inner{}), reflect.TypeOf(&za.Item{}), reflect.TypeOf(zb.Item{}), reflect.TypeOf(map[string]int(nil)), reflect.TypeOf(int64(0)),
 	reflect.TypeOf(map[string]za.Inner(nil)), reflect.TypeOf([]zb.Inner(nil)), reflect.TypeOf([2]za.Inner{}), reflect.TypeOf(map[string][]int(nil)), reflect.TypeOf(float32(0)), reflect.TypeOf(uint16(0)),
+	reflect.TypeOf(int8(0)), reflect.TypeOf(int16(0)), reflect.TypeOf(int32(0)), reflect.TypeOf(uint32(0)), reflect.TypeOf(uint(0)), reflect.TypeOf([]float32(nil)), reflect.TypeOf([]*za.Inner(nil)), reflect.TypeOf(map[string]*zb.Item(nil)), reflect.TypeOf([]any(nil)), reflect.TypeOf((*any)(nil)).Elem(),
 }
 
 // drawStructOf builds an anonymous struct type with a seeded field list (the only way to quantify
